@@ -89,6 +89,7 @@ func chunkPlan(r *simfw.RNG, n int, fault bool) simenv.ChunkPlan {
 		p.Sizes = []int{4096}
 	}
 	p.EOFWithData = r.Bool()
+	p.CloseErr = r.Chance(1, 10)
 	if fault && n > 1 {
 		p.FaultAt = r.Range(1, n-1)
 		p.FaultKind = simfw.Pick(r, []string{"eio", "reset", "unexpected_eof"})
@@ -571,6 +572,15 @@ func genResponse(r *simfw.RNG, s *Spec) {
 	}
 	if r.Chance(2, 3) {
 		p.Headers = append(p.Headers, [2]string{"X-Rate", simfw.Pick(r, []string{"5", "12", "12", "fast"})})
+	}
+	// a Content-Length header: usually right, now and then not (the header set is the caller's; the body is the body)
+	switch r.Intn(12) {
+	case 0, 1, 2, 3, 4, 5:
+		p.Headers = append(p.Headers, [2]string{"Content-Length", fmt.Sprint(len(p.Body))})
+	case 6:
+		p.Headers = append(p.Headers, [2]string{"Content-Length", fmt.Sprint(len(p.Body) / 2)})
+	case 7:
+		p.Headers = append(p.Headers, [2]string{"Content-Length", fmt.Sprint(len(p.Body) + 10)})
 	}
 	// response map: usually holds an entry that selects this status and declares this content type
 	seen := map[string]bool{}
